@@ -75,7 +75,7 @@ def main : IO Unit := Driver.runLoop fun op args =>
       (Fat.read1216 (flag args "chk") k (bpbArg args) (sizeArg args))
   | "parsers.fat32geom" =>
     outStr (fun g => s!"{g.fatSize},{g.fatPrimaryStart},{g.fatSecondaryStart},{g.bytesPerCluster}")
-      (Fat.read32 (flag args "chk") (bpbArg args) (sizeArg args))
+      (Fat.read32 (flag args "chk") (flag args "wrap") (bpbArg args) (sizeArg args))
   | "parsers.isopath" =>
     let b := gsArg args
     outStr (fun l => joinOr ";" (l.map pathStr)) (Iso.parsePathTable (flag args "chk") b (b.len / 10 + 2))
